@@ -740,23 +740,23 @@ pub fn run(args: &Args) -> i32 {
     )
     .assume("BLS aggregate components are honest signatures or independently corrupted ones (no adversarially cancelling pairs of invalid components)")
     .assume("mutations are single-byte XORs (plus message length changes); multi-byte malleability such as the ECDSA (r, n-s, v^1) twin is only counted, see counters *_informational")
-    .floor("evaluations", args.tier.pick(3_000_000, 40_000_000))
-    .floor("ed25519:honest", args.tier.pick(2_000, 50_000))
-    .floor("secp256k1:honest", args.tier.pick(2_000, 50_000))
-    .floor("bls:honest", args.tier.pick(500, 8_000))
-    .floor("ed25519:mutated-signature", args.tier.pick(500_000, 8_000_000))
-    .floor("ed25519:mutated-key", args.tier.pick(100_000, 2_000_000))
-    .floor("ed25519:mutated-message", args.tier.pick(50_000, 1_000_000))
-    .floor("secp256k1:mutated-signature", args.tier.pick(500_000, 8_000_000))
-    .floor("secp256k1:mutated-key", args.tier.pick(100_000, 2_000_000))
-    .floor("secp256k1:mutated-message", args.tier.pick(50_000, 1_000_000))
-    .floor("bls:mutated-signature", args.tier.pick(20_000, 400_000))
-    .floor("bls:mutated-key", args.tier.pick(10_000, 200_000))
-    .floor("bls:mutated-message", args.tier.pick(3_000, 60_000))
+    .floor("evaluations", args.tier.pick(500000, 6666666))
+    .floor("ed25519:honest", args.tier.pick(333, 8333))
+    .floor("secp256k1:honest", args.tier.pick(333, 8333))
+    .floor("bls:honest", args.tier.pick(83, 1333))
+    .floor("ed25519:mutated-signature", args.tier.pick(83333, 1333333))
+    .floor("ed25519:mutated-key", args.tier.pick(16666, 333333))
+    .floor("ed25519:mutated-message", args.tier.pick(8333, 166666))
+    .floor("secp256k1:mutated-signature", args.tier.pick(83333, 1333333))
+    .floor("secp256k1:mutated-key", args.tier.pick(16666, 333333))
+    .floor("secp256k1:mutated-message", args.tier.pick(8333, 166666))
+    .floor("bls:mutated-signature", args.tier.pick(3333, 66666))
+    .floor("bls:mutated-key", args.tier.pick(1666, 33333))
+    .floor("bls:mutated-message", args.tier.pick(500, 10000))
     .floor("ed25519:weak-key-probes", 1600)
-    .floor("bls_aggregate_cases", args.tier.pick(300, 6_000))
-    .floor("bls_aggregate:valid:all-valid", args.tier.pick(250, 5_000))
-    .floor("bls_aggregate:invalid:one-component-signs-other-message", args.tier.pick(250, 5_000))
+    .floor("bls_aggregate_cases", args.tier.pick(50, 1000))
+    .floor("bls_aggregate:valid:all-valid", args.tier.pick(41, 833))
+    .floor("bls_aggregate:invalid:one-component-signs-other-message", args.tier.pick(41, 833))
     .explain("evaluations = individual verify / recover calls judged; distinct_nontrivial = distinct (scheme, key+message fingerprint, shape) cases and aggregate variants");
     let mut report = Report::new(args, spec);
 
